@@ -105,6 +105,45 @@ package boltz
 
 //@ func (Store).newRowComparator
 //@   pure
+// the row comparator: one symbol comparator per sort field, in order and in the field's direction, then the id ascending,
+// so that rows equal on every sort field are still ordered (and none is dropped as a duplicate)
+//@ ghost cmpFwd : (Array Int Bool)
+//@ ghost cmpSym : (Array Int Int)
+//@ view cmpFwd[*stringSymbolComparator] = self.forward
+//@ view cmpFwd[*int64SymbolComparator] = self.forward
+//@ view cmpFwd[*float64SymbolComparator] = self.forward
+//@ view cmpFwd[*datetimeSymbolComparator] = self.forward
+//@ view cmpFwd[*boolSymbolComparator] = self.forward
+//@ view cmpSym[*stringSymbolComparator] = ref(self.symbol)
+//@ view cmpSym[*int64SymbolComparator] = ref(self.symbol)
+//@ view cmpSym[*float64SymbolComparator] = ref(self.symbol)
+//@ view cmpSym[*datetimeSymbolComparator] = ref(self.symbol)
+//@ view cmpSym[*boolSymbolComparator] = ref(self.symbol)
+//@ func (*BaseStore).newRowComparator
+//@   props C02
+//@   pure
+//@   ensures[one-comparator-per-field-then-id] result1 == nil ==> result0 != nil && istype(result0, *rowComparatorImpl) && len(as(result0, *rowComparatorImpl).symbols) == len(sort) + 1 && forall(j, 0 <= j && j < len(sort) ==> cmpFwd[as(result0, *rowComparatorImpl).symbols[j]] == sfAsc[sort[j]] && cmpSym[as(result0, *rowComparatorImpl).symbols[j]] == cowGet(store.symbols, sfSym[sort[j]])) && cmpFwd[as(result0, *rowComparatorImpl).symbols[len(sort)]] && cmpSym[as(result0, *rowComparatorImpl).symbols[len(sort)]] == cowGet(store.symbols, "id")
+//@   assume[sort-fields-not-nil] forall(j, 0 <= j && j < len(sort) ==> sort[j] != nil)
+//@   invariant[count] 1: len(symbolsComparators) == rangeindex + 1 && len(local(sort)) == len(sort) + 1
+//@   invariant[non-nil] 1: forall(j, 0 <= j && j <= rangeindex ==> symbolsComparators[j] != nil && allocated(symbolsComparators[j])) && forall(j, 0 <= j && j < len(local(sort)) ==> local(sort)[j] != nil)
+//@   invariant[direction] 1: forall(j, 0 <= j && j <= rangeindex ==> cmpFwd[symbolsComparators[j]] == sfAsc[local(sort)[j]])
+//@   invariant[symbol] 1: forall(j, 0 <= j && j <= rangeindex ==> cmpSym[symbolsComparators[j]] == cowGet(store.symbols, sfSym[local(sort)[j]]))
+// the comparison is lexicographic: the first comparator that does not say "equal" decides
+//@ spec cmpRes(c Int, row1 Int, row2 Int) Int
+//@ func (symbolComparator).Compare
+//@   pure
+//@   ensures result == cmpRes(self, ref(arg0), ref(arg1))
+//@ func (EntitySymbol).GetType
+//@   pure
+//@ func (EntitySymbol).IsSet
+//@   pure
+//@ typeinv rowComparatorImpl: forall(i, 0 <= i && i < len(self.symbols) ==> self.symbols[i] != nil)
+//@ func (*rowComparatorImpl).Compare
+//@   props C02
+//@   pure
+//@   ensures[first-difference-decides] (result == 0) == forall(j, 0 <= j && j < len(rc.symbols) ==> cmpRes(ref(rc.symbols[j]), ref(row1), ref(row2)) == 0)
+//@   ensures[first-difference-decides-value] result != 0 ==> exists(j, 0 <= j && j < len(rc.symbols) && result == cmpRes(ref(rc.symbols[j]), ref(row1), ref(row2)) && forall(i, 0 <= i && i < j ==> cmpRes(ref(rc.symbols[i]), ref(row1), ref(row2)) == 0))
+//@   invariant 1: forall(i, 0 <= i && i <= rangeindex ==> cmpRes(ref(rc.symbols[i]), ref(row1), ref(row2)) == 0) && (rangeindex >= 0 ==> result == 0) && (rangeindex < 0 ==> result == 0)
 //@ func (*sortingScanner).ScanCursor
 //@   props C02
 //@   requires query != nil && scanner.store != nil
